@@ -350,6 +350,9 @@ func runC07(c *Ctx) {
 	if nDeref == 0 {
 		c.Hold("R7.2", "reachable-set", "module", fmt.Sprintf("%d reachable functions: no nil-able dereference", len(fns)))
 	}
+	checkOpFieldValidation(c) // the operations' Validate is the gate merge relies on for remote content
+	checkConstIndexGuards(c, fns)
+	checkEmptyEntityAndUseBeforeValidate(c)
 	checkFormatGate(c)
 	checkMergeRefIdGuard(c)
 	checkIdentityReadIdGuard(c, "R7.5")
@@ -588,4 +591,218 @@ func obligSnapshotId(c *Ctx) (bool, string) {
 		return false, "no Snapshot literal found"
 	}
 	return true, ""
+}
+
+// ---- R7.8: constant-index accesses need a dominating length guard ----
+
+func sameSlice(a, b ssa.Value) bool {
+	if a == b {
+		return true
+	}
+	ba, fa, oka := loadOfField(a)
+	bb, fb, okb := loadOfField(b)
+	if oka && okb && fa == fb && ba == bb {
+		return true
+	}
+	ua, oka2 := a.(*ssa.UnOp)
+	ub, okb2 := b.(*ssa.UnOp)
+	if oka2 && okb2 && ua.X == ub.X {
+		return true
+	}
+	return false
+}
+
+// lenGuarded: on every way into ins, len(s) > k is implied by a dominating branch edge.
+func lenGuarded(ins ssa.Instruction, s ssa.Value, k int64) bool {
+	for _, cc := range controlConds(ins.Block(), nil) {
+		cond := cc.If.Cond
+		edge := cc.Edge
+		for {
+			if u, ok := cond.(*ssa.UnOp); ok && u.Op == token.NOT {
+				cond = u.X
+				edge = 1 - edge
+				continue
+			}
+			break
+		}
+		bo, ok := cond.(*ssa.BinOp)
+		if !ok || !isCmpOp(bo.Op) {
+			continue
+		}
+		x, y, op := bo.X, bo.Y, bo.Op
+		isLenOf := func(v ssa.Value) bool {
+			c, ok := v.(*ssa.Call)
+			if !ok {
+				return false
+			}
+			b, ok := c.Common().Value.(*ssa.Builtin)
+			return ok && b.Name() == "len" && sameSlice(c.Common().Args[0], s)
+		}
+		if isLenOf(y) {
+			x, y, op = y, x, swapOp(op)
+		}
+		if !isLenOf(x) {
+			continue
+		}
+		n, isN := constInt(y)
+		if !isN {
+			continue
+		}
+		if edge == 1 {
+			op = negateOp(op)
+		}
+		switch op {
+		case token.EQL:
+			if n > k {
+				return true
+			}
+		case token.GTR:
+			if n >= k {
+				return true
+			}
+		case token.GEQ:
+			if n > k {
+				return true
+			}
+		case token.NEQ:
+			if n == 0 && k == 0 {
+				return true
+			}
+		}
+	}
+	return false
+}
+
+func checkConstIndexGuards(c *Ctx, fns []*ssa.Function) {
+	w := c.W
+	c.Doc("R7.8", "an element access with a constant index on a slice (s[0]) in code reachable from the read/merge entry points is dominated by a branch edge implying len(s) > index, or relies on a reviewed non-emptiness obligation")
+	reviewed := map[string]panicReview{
+		"entities/identity.Identity.Id": {"an Identity always has a first version: built with one (NewIdentityFull) or read with at least one commit", obligIdentityNonEmpty},
+		"entities/identity.read":        {"versions has one element per commit and an empty commit list is refused", obligIdentityNonEmpty},
+	}
+	n := 0
+	for _, f := range fns {
+		for _, b := range f.Blocks {
+			for _, ins := range b.Instrs {
+				ia, ok := ins.(*ssa.IndexAddr)
+				if !ok {
+					continue
+				}
+				if _, isSlice := ia.X.Type().Underlying().(*types.Slice); !isSlice {
+					continue
+				}
+				k, isK := constInt(ia.Index)
+				if !isK {
+					continue
+				}
+				n++
+				c.Sites++
+				name := funcName(f)
+				_, fld, isF := loadOfField(ia.X)
+				what := ia.X.Name()
+				if isF {
+					what = "." + fld
+				} else if phi, isPhi := ia.X.(*ssa.Phi); isPhi && phi.Comment != "" {
+					what = phi.Comment
+				} else if ex, isEx := ia.X.(*ssa.Extract); isEx {
+					if call, isCall := ex.Tuple.(*ssa.Call); isCall {
+						cn, _ := callName(call.Common())
+						what = "result of " + cn
+					}
+				}
+				key := fmt.Sprintf("%s:%s[%d]", name, what, k)
+				if lenGuarded(ia, ia.X, k) {
+					c.Hold("R7.8", key, w.InstrPos(ia), "dominated by a length guard")
+					continue
+				}
+				if rv, ok := reviewed[name]; ok && isF && fld == "versions" {
+					good, why := rv.check(c)
+					c.Check(good, "R7.8", key, w.InstrPos(ia), "non-empty by obligation: "+rv.reason, "the obligation that made this access safe no longer holds: "+why)
+					continue
+				}
+				c.Violate("R7.8", key, w.InstrPos(ia), fmt.Sprintf("element %d of %s is accessed without a dominating guard on its length: data read from git can make it shorter (index out of range panic)", k, what))
+			}
+		}
+	}
+	if n < 5 {
+		c.Violate("R7.8", "expected:const-index-sites", "module", fmt.Sprintf("%d constant-index accesses in the reachable set (reference 7)", n))
+	}
+}
+
+// R7.9: read refuses an entity without operations; merge uses the remote entity only after Validate
+func checkEmptyEntityAndUseBeforeValidate(c *Ctx) {
+	w := c.W
+	c.Doc("R7.9", "dag.read fails when the history holds no operation (Entity.Id() needs a first operation); in dag.merge no method of the remote entity other than Validate is called before Validate succeeded")
+	if fn := readFn(c, "R7.9"); fn != nil {
+		ok := false
+		var succ *ssa.Return
+		for _, r := range Returns(fn) {
+			if returnKind(r) != RetError {
+				succ = r
+			}
+		}
+		for _, g := range cmpGuards(fn, nil) {
+			c.Sites++
+			lc, isCall := g.X.(*ssa.Call)
+			if !isCall {
+				continue
+			}
+			bi, isB := lc.Common().Value.(*ssa.Builtin)
+			if !isB || bi.Name() != "len" {
+				continue
+			}
+			k, isK := constInt(g.Y)
+			if !isK || !((g.Op == token.EQL && k == 0) || (g.Op == token.LEQ && k == 0) || (g.Op == token.LSS && k == 1)) {
+				continue
+			}
+			// the slice measured is the one stored into Entity.ops
+			for _, b := range fn.Blocks {
+				for _, ins := range b.Instrs {
+					if st, isSt := ins.(*ssa.Store); isSt {
+						if fa, isFA := st.Addr.(*ssa.FieldAddr); isFA && fieldName(fa) == "ops" && st.Val == lc.Common().Args[0] {
+							if succ != nil && g.If.Block().Dominates(succ.Block()) {
+								ok = true
+							}
+						}
+					}
+				}
+			}
+		}
+		c.Check(ok, "R7.9", "entity/dag.read:refuses-empty-entity", w.FnPos(fn), "fails iff the operation list is empty, before the success return", "an entity without operations is read successfully: its Id() dereferences a nil first operation (crash in the cache build / ReadAll)")
+	}
+	mf := w.Func("entity/dag", "merge")
+	if mf == nil {
+		return
+	}
+	for _, rd := range Calls(mf) {
+		if !readFuncs[rd.Name] || rd.Value() == nil {
+			continue
+		}
+		a := rd.Args()
+		if refSide(a[len(a)-1]) != "remote" {
+			continue
+		}
+		for _, rv := range resultValues(rd.Value(), 0) {
+			var validates []*Call
+			for _, cl := range Calls(mf) {
+				if strings.HasSuffix(cl.Name, ".Validate") && cl.Recv() != nil && stripConv(cl.Recv()) == rv && cl.Value() != nil {
+					validates = append(validates, cl)
+				}
+			}
+			for _, cl := range Calls(mf) {
+				r := cl.Recv()
+				if r == nil || stripConv(r) != rv || strings.HasSuffix(cl.Name, ".Validate") {
+					continue
+				}
+				c.Sites++
+				ok := false
+				for _, v := range validates {
+					if dominatedBySuccess(v.Value(), cl.Instr) {
+						ok = true
+					}
+				}
+				c.Check(ok, "R7.9", "entity/dag.merge:remote."+cl.Instr.Common().Method.Name()+"-after-validate", w.InstrPos(cl.Instr), "called only on a validated remote entity", "a method of the remote entity is called before it was validated: for an entity without operations (which a remote can serve) this dereferences nil inside the MergeAll goroutine")
+			}
+		}
+	}
 }
